@@ -163,7 +163,7 @@ func c15Jobs(tier string) []*SeqJob {
 		}
 		j := &SeqJob{Property: "C15", Name: fmt.Sprintf("transport-sequences-%d-destinations", nd), Shards: tierInt(tier, 5, 10)}
 		d := depth
-		if nd > 1 {
+		if nd > 2 {
 			d = depth - 1
 		}
 		j.Run = func(ctx *SeqCtx) { bfs(ctx, alphabet, d, c15Exec(nd, alphabet)) }
